@@ -278,6 +278,10 @@ AtRest == Act.t = "entry" /\ depth = 0
 K10 == AtRest => (frames = <<>> /\ conds = 0 /\ Len(go) = 1)
 K10ctx == AtRest => ctx = "clean"
 FramesMatchGo == Len(frames) = Cardinality({i \in 1..Len(go) : go[i].t \in ({"fun"} \cup OPS)})
-StepsBound == BUDGET > 0 => steps <= BUDGET + 1 + Len(go)
+\* K4 BudgetStops: once the budget is exhausted every further charged step fails with the
+\* step-limit error (no evaluation step succeeds any more); the counter never decreases
+\* within an entry (K3)
+BudgetStops == [][(BUDGET > 0 /\ steps > BUDGET /\ steps' > steps) => (ret'.t = "err" /\ ret'.c = "steps")]_vars
+StepMonotone == [][steps' >= steps \/ (depth = 0 /\ steps' = 0)]_vars
 View == <<frames, go, ret, steps, depth, conds, ctx, nentry, dropped>>
 =============================================================================
